@@ -259,7 +259,8 @@ func (fc *FnCtx) vacuityProbe() *Oblig {
 			last = b.Index
 		}
 	}
-	if last < 0 {
+	rets = append(rets, fc.exitReach...)
+	if last < 0 && len(fc.exitReach) == 0 {
 		return nil
 	}
 	// evaluated at the last return block in RPO with all facts of all blocks visible
